@@ -482,7 +482,10 @@ func (e *SEnv) evalCallSX(sx *SX) Val {
 			break
 		}
 		m := e.eval(sx.Args[0])
-		d, v, _, _ := x.mapParts(e.st, m)
+		d, v, vs, _ := x.mapParts(e.st, m)
+		if len(e.bound) == 0 {
+			x.nilMapFacts(e.st, m, d, v, vs, "")
+		}
 		return Val{T: app("msum", d, v), S: "Int"}
 	case "msumR":
 		if !argn(2) {
